@@ -29,6 +29,8 @@ pub struct GenCfg {
     pub avoid_global_temps: bool,
     /// maximal number of function-typed expressions per top-level declaration (see Gen::fn_exprs)
     pub max_fn_exprs: usize,
+    /// the budget above applies to the whole program instead of each declaration
+    pub fn_exprs_program_wide: bool,
     /// per-function budget of Lua locals (each read/call/definition costs one)
     pub locals_budget: usize,
     /// plain strings only (no backslash / newline / control characters)
@@ -69,6 +71,7 @@ impl GenCfg {
             avoid_str_tuple_arith: true,
             avoid_global_temps: false,
             max_fn_exprs: 7,
+            fn_exprs_program_wide: false,
             locals_budget: 110,
             plain_strings: true,
             backslash_strings: false,
@@ -1613,7 +1616,9 @@ impl<'t, 'a, 'b> Gen<'t, 'a, 'b> {
 
     fn gen_global_fn(&mut self) {
         self.budget = self.cfg.decl_budget;
-        self.fn_exprs = 0;
+        if !self.cfg.fn_exprs_program_wide {
+            self.fn_exprs = 0;
+        }
         let rec = self.cfg.recursion && self.t.chance(1, 3);
         let np = self.t.below(4);
         let mut pts = Vec::new();
@@ -1646,7 +1651,9 @@ impl<'t, 'a, 'b> Gen<'t, 'a, 'b> {
 
     fn gen_global_value(&mut self) {
         self.budget = 12;
-        self.fn_exprs = 0;
+        if !self.cfg.fn_exprs_program_wide {
+            self.fn_exprs = 0;
+        }
         let ty = self.value_ty(2);
         let mutable = self.t.chance(1, 2);
         // initialisers are effect-free: operators, literals and earlier constant globals only
@@ -1703,7 +1710,9 @@ impl<'t, 'a, 'b> Gen<'t, 'a, 'b> {
         let scope = self.scope.len();
         let mut body = Block::default();
         self.budget = self.cfg.decl_budget * 2;
-        self.fn_exprs = 0;
+        if !self.cfg.fn_exprs_program_wide {
+            self.fn_exprs = 0;
+        }
         let n = self.cfg.max_stmts / 2 + self.t.below(self.cfg.max_stmts / 2 + 1);
         for _ in 0..n {
             if ctx.locals > self.cfg.locals_budget {
